@@ -112,6 +112,16 @@ Definition window_spec (limit : nat) (l : log) (from : N) : log :=
   let s := start_seq_rev from (rev (upto from l)) limit in
   filter mr_keep (filter (fun f => (s <=? fseq f) && (fseq f <=? from)) l).
 
+(* window_recent_messages_v1_from_message_id_full_sidecar on an intact full sidecar: the anchor's line through the message-id
+   index (not modelled: the anchor is found), the cut by the forward scan from the anchor's line (the seq in front of the next
+   message, else the head: Compile.cut_point), then the window read above.  This is the value of the parameter `window` of
+   Model/CacheCompile.v input_fast / compile_fast when the messages+runs window does not answer. *)
+Definition full_sidecar_window (look : list entry -> N -> N) (stride : N) (limit : nat) (l : log) (a : N) : option (log * N) :=
+  match cut_point l a with
+  | Some from => Some (seek_window look stride limit l from, from)
+  | None => None
+  end.
+
 (* ------------------------------------------------------------------ small constants for the witnesses (stride 4) *)
 Definition mk_msg (s : N) : frame := {| fseq := s; fb := BMsg |}.
 Definition thread_of_msgs (n : nat) : log := map (fun i => mk_msg (N.of_nat i)) (seq 0 n).
